@@ -24,7 +24,7 @@ from vlib import blit, zlit
 # constants of the tie (determined empirically, with margin; see design_work.md)
 # (ii) lines <= K * steps + K0, per kind (measured maxima: ext lists 19.5/605, simple
 # extension parsers 7.9/190, defragmenter 41.5 per get_message, static 16.6)
-K_TIE = {'ext_raw': (24, 700), 'ch_exts': (24, 700), 'cert13': (24, 700), 'compressed_cert': (20, 300),   # cert13: per-entry extension lists
+K_TIE = {'ext_raw': (24, 700), 'ext_nodup': (24, 700), 'ch_exts': (24, 700), 'cert13': (24, 700), 'compressed_cert': (20, 300),   # cert13: per-entry extension lists
          'defrag_hs': (50, 150), 'defrag_static': (22, 300)}
 K_DEFAULT = (12, 300)
 C_LINES, C0_LINES = 40, 800          # (iii) lines <= C * len(input) + C0   (measured max 23.7 / 605)
@@ -41,7 +41,7 @@ EXC = {'IndexError': 1, 'ValueError': 2, 'AssertionError': 3, 'AttributeError': 
 
 KINDS = ['ext_raw', 'ch_exts', 'sni', 'alpn', 'npn', 'key_shares', 'psk', 'status_request',
          'var_list', 'var_tuple_list', 'fix_list', 'cert13', 'cert12', 'cert_request12',
-         'defrag_hs', 'defrag_static', 'asn1_children', 'compressed_cert']
+         'defrag_hs', 'defrag_static', 'asn1_children', 'compressed_cert', 'ext_nodup']
 KID = {k: i for i, k in enumerate(KINDS)}
 MODELLED_CH = (0, 16, 13172, 51, 41, 5)
 
@@ -141,10 +141,25 @@ def summ_ext_obj(e):
 
 
 def impl_ext_raw(block):
-    from tlslite.messages import EncryptedExtensions
+    """extension loop WITHOUT a duplicate test: NewSessionTicket.parse"""
+    from tlslite.messages import NewSessionTicket
     from tlslite.utils.codec import Parser
-    body = _w(len(block) + 2, 3) + _w(len(block), 2) + block
-    m = EncryptedExtensions().parse(Parser(bytearray(body)))
+    body = bytes(8) + b'\x00' + b'\x00\x00' + _w(len(block), 2) + block
+    m = NewSessionTicket().parse(Parser(bytearray(_w(len(body), 3) + body)))
+    return [(e.extType, _b(e.extData)) for e in m.extensions]
+
+
+def impl_ext_nodup(block, which):
+    """extension loop followed by the duplicate test: EncryptedExtensions.parse (which = 0) or
+    CertificateRequest._parse_tls13 (which = 1)"""
+    from tlslite.messages import EncryptedExtensions, CertificateRequest
+    from tlslite.utils.codec import Parser
+    if which == 0:
+        body = _w(len(block), 2) + block
+        m = EncryptedExtensions().parse(Parser(bytearray(_w(len(body), 3) + body)))
+    else:
+        body = b'\x00' + _w(len(block), 2) + block
+        m = CertificateRequest((3, 4)).parse(Parser(bytearray(_w(len(body), 3) + body)))
     return [(e.extType, _b(e.extData)) for e in m.extensions]
 
 
@@ -270,7 +285,7 @@ def impl_compressed_cert(bs):
 def impl_fn(kind):
     from tlslite import extensions as X
     return {
-        'ext_raw': impl_ext_raw, 'ch_exts': impl_ch_exts,
+        'ext_raw': impl_ext_raw, 'ext_nodup': impl_ext_nodup, 'ch_exts': impl_ch_exts,
         'sni': _impl_ext(X.SNIExtension), 'alpn': _impl_ext(X.ALPNExtension),
         'npn': _impl_ext(X.NPNExtension), 'key_shares': _impl_ext(X.ClientKeyShareExtension),
         'psk': _impl_ext(X.PreSharedKeyExtension), 'status_request': _impl_ext(X.StatusRequestExtension),
@@ -468,9 +483,19 @@ def gen_compressed(rng, pool, unk):
 def gen_case(rng, kind, pool, unk):
     """-> dict(kind, params, input, cls)"""
     params = []
-    if kind == 'ext_raw':
-        style = rng.choice(['mix', 'mix', 'tiny', 'empty'])
-        if style == 'tiny':
+    if kind in ('ext_raw', 'ext_nodup'):
+        style = rng.choice(['mix', 'mix', 'tiny', 'empty', 'distinct', 'dup'])
+        if kind == 'ext_nodup':
+            params = [rng.randrange(2)]
+        if style == 'dup':
+            # every extension well-formed, one type repeated (rejected only where the test exists)
+            types = rng.sample(unk, rng.choice([1, 2, 5, 9]))
+            types.insert(rng.randrange(len(types) + 1), rng.choice(types))
+            data = b''.join(gen_ext_block(rng, [t], 1) for t in types)
+            params = params + ['nomut']
+        elif style == 'distinct':
+            data = gen_ext_block(rng, unk, rng.choice([1, 2, 5, 12]), distinct=True)
+        elif style == 'tiny':
             data = gen_ext_block(rng, unk, 0)
             data = b''.join(_w(rng.choice(unk), 2) + b'\x00\x00' for _ in range(rng.choice([1, 50, 400, 900])))
         elif style == 'empty':
@@ -559,8 +584,8 @@ def gen_case(rng, kind, pool, unk):
         data = gen_compressed(rng, pool, unk)
     else:
         raise KeyError(kind)
-    if params == ['nomut']:
-        params, cls = [], 'dup'
+    if params[-1:] == ['nomut']:
+        params, cls = params[:-1], 'dup'
     elif kind in ('var_list', 'var_tuple_list', 'fix_list', 'defrag_static'):
         cls, data = mutate(rng, data) if rng.random() < 0.6 else ('none', data)
     elif kind == 'compressed_cert':
@@ -694,6 +719,7 @@ Definition run_model (kind : Z) (ps : list Z) (certs : list (list Z * Z))
   else if kind =? 16 then mmap summ_names (asn1_all_children bs)
   else if kind =? 17 then
     mmap summ_certs (parse_compressed_cert_full (dec_tbl dec) (fun a => a =? 1) (cert_tbl certs) bs)
+  else if kind =? 18 then parse_ext_list_nodup bs
   else merr OutOfFuel.
 Definition model_of (c : CaseT) : M summ :=
   let '(kind, ps, bs, ok, code, s, lines, certs, dec) := c in run_model kind ps certs dec bs.
@@ -719,6 +745,7 @@ Definition proved (kind : Z) (ps : list Z) : Z * Z * Z * Z :=
   else if kind =? 10 then (2, 3, 2, Z.max 0 (p1 ps) + 1)
   else if kind =? 11 then (3, 13, 4, 2) else if kind =? 12 then (1, 5, 2, 1)
   else if kind =? 13 then (5, 13, 4, 259)
+  else if kind =? 18 then (2, 4, 3, 1)
   else (1, 1, 1, 0).
 Definition chk_bounds_m (c : CaseT) (m : M summ) : bool :=
   let '(kind, ps, bs, ok, code, s, lines, certs, dec) := c in
@@ -746,6 +773,7 @@ def scaling_inputs(n):
     ch_tiny = b''.join(_w(16 if i % 2 else 0xABAB, 2) + b'\x00\x02\x00\x00' for i in range(max(1, n // 6)))
     probes = {
         'ext_raw/tiny': ('ext_raw', [], ext_tiny[:65532]),
+        'ext_nodup/tiny': ('ext_nodup', [0], ext_tiny[:65532]),
         'ch_exts/tiny': ('ch_exts', [], ch_tiny[:65532]),
         'npn/zero-length': ('npn', [], b'\x00' * min(n, 65535)),
         'defrag_hs/empty-messages': ('defrag_hs', [], b'\x0b\x00\x00\x00' * k4),
@@ -843,7 +871,7 @@ def run_stage(ctx, quick):
     pool = _cert_pool()
     unk = unknown_types()
     total = 300 if quick else 5000
-    weights = {'ext_raw': 3, 'ch_exts': 4, 'sni': 2, 'alpn': 2, 'npn': 1, 'key_shares': 2, 'psk': 3,
+    weights = {'ext_raw': 2, 'ext_nodup': 3, 'ch_exts': 4, 'sni': 2, 'alpn': 2, 'npn': 1, 'key_shares': 2, 'psk': 3,
                'status_request': 1, 'var_list': 2, 'var_tuple_list': 1, 'fix_list': 1, 'cert13': 2, 'cert12': 1,
                'cert_request12': 2, 'defrag_hs': 3, 'defrag_static': 1, 'asn1_children': 1, 'compressed_cert': 2}
     bag = [k for k, w in weights.items() for _ in range(w)]
